@@ -5,6 +5,7 @@ CONSTANTS
   GenSteps = 3
   Cap = 0
   RingSize = 10
+  STRICT_REMOVE = FALSE
   WatchFile = TRUE
 INVARIANT Emit
 CHECK_DEADLOCK FALSE
